@@ -18,7 +18,7 @@ VARIANTS = {  # name -> (repeat, release-cancel, cancel-on-press)
     "macro-repeat-cancel-on-press": (True, False, True),
     "macro-repeat-release-cancel-and-cancel-on-press": (True, True, True),
 }
-SIG_RING = "[more than 4 macros were active together]"
+SIG_RING = "[more than 4 macros were started without an idle point in between]"
 SIG_BLOCK = "[after macro-release-cancel]"
 
 
@@ -281,7 +281,7 @@ def burst_job(n, gap, b1):
     """n macro keys with pairwise disjoint output keys, each M-(k <delay> k'), pressed `gap` ticks apart"""
     phys = ["a", "b", "c", "d", "e", "f"][:n]
     mods = ["lsft", "lctl", "lalt", "lmet", "rsft", "rctl"]
-    outs = [("1", "2"), ("3", "4"), ("5", "6"), ("7", "8"), ("9", "0"), ("x", "y")]
+    outs = [("g", "h"), ("i", "j"), ("k", "l"), ("m", "n"), ("o", "p"), ("q", "r")]   # (digits would be delays)
     macros = [(phys[i], "macro", [G([mods[i]], outs[i][0], 30, outs[i][1])]) for i in range(n)]
     desc, params = make(macros, plain=(), b1=b1)
     s = []
